@@ -162,20 +162,20 @@ type pfault struct {
 
 // PDrv owns one real MotionProcessor and everything around it.
 type PDrv struct {
-	cfg      PCfg
-	cam      Cam
-	mp       *motion.MotionProcessor
-	m, c, t  *monSink
-	faults   []pfault
-	now      time.Time
-	nextID   int // number of accepted frames so far
-	badCount int
-	level    bool
-	log      []PObs
-	ev       int
-	curDisk  bool
-	curStart bool
-	curFault map[[2]byte]bool // per-event: the call of this kind on this sink fails if made during the event
+	cfg        PCfg
+	cam        Cam
+	mp         *motion.MotionProcessor
+	m, c, t    *monSink
+	faults     []pfault
+	now        time.Time
+	nextID     int // number of accepted frames so far
+	badCount   int
+	level      bool
+	log        []PObs
+	ev         int
+	curDisk    bool
+	curStart   bool
+	curFault   map[[2]byte]bool // per-event: the call of this kind on this sink fails if made during the event
 	faultFired int
 	// per event bookkeeping for the oracles
 	evKind     []byte
